@@ -191,6 +191,8 @@ def run(chk: Check) -> None:
     for prop_, rule_, construct_, ok_, loc_, msg_, facts_ in ownership(repo).obs:
         if rule_ in ("R05.3", "R03.5") or (rule_ == "R03.3" and "leave-previous-owner" in construct_):
             chk.ob("R13.4", construct_, ok_, loc_, msg_, facts_)
+    from .lookups import truthiness_safe
+    truthiness_safe(chk, "R13.4")
     sec = repo.cls("Section")
     delegation(chk, sec, "symbolic_expressions_at",
                [("attr", ("self",), "byte_intervals"),
